@@ -112,6 +112,25 @@ class CommandMixin(object):
     def _admit_ok(self, adm, side):
         return side in adm or len(adm) < 2
 
+    def _admission(self, rec, side):
+        """True / False when the side is (not) among the first two by order of
+        success and by order of attempt alike; None where these disagree
+        (a refused side's attempt came in between: unspecified)"""
+        adm = self._adm(rec)
+        att = list(rec["attempted"]) if rec else []
+        a = side in adm or len(adm) < 2
+        first = []
+        for x in att + [side]:
+            if x not in first:
+                first.append(x)
+        b = side in first[:2]
+        return a if a == b else None
+
+    def _attempt(self, k_mb, k_np, side):
+        for rec in (self.mb_inc.get(k_mb) if k_mb else None, self.np_inc.get(k_np) if k_np else None):
+            if rec is not None and side not in rec["attempted"]:
+                rec["attempted"].append(side)
+
     def _touch(self, k, wall, accepted):
         rec = self.mb_inc.get(k)
         if rec is None:
@@ -377,15 +396,16 @@ class CommandMixin(object):
             return
         np_rec = self.np_inc.get((app, name)) if existed else None
         mb_rec = self.mb_inc.get((app, mid)) if mid is not None else None
-        ok_np = self._admit_ok(self._adm(np_rec), side)
-        ok_mb = self._admit_ok(self._adm(mb_rec), side)
+        ok_np = self._admission(np_rec, side)
+        ok_mb = self._admission(mb_rec, side)
+        sub.ev.notes.setdefault("_att", []).append(((app, mid), (app, name), side))
         self._no_others("C05", sub, "claim")
         if out == "nofresh":
             # new nameplate but the server neither answered nor stored one
             self.v("C03", "claim-answers", ev, "claim of free nameplate %r answered by %r"
                    % (name, [self._brief(f) for f in rest]))
             return
-        if ok_np and ok_mb:
+        if ok_np is True and ok_mb is True:
             if told is None:
                 if errored and rest[0].get("error") == "crowded":
                     self.v("C05", "admitted-side-keeps-access", ev,
@@ -411,7 +431,7 @@ class CommandMixin(object):
                     self.probes["repeat_claim_same_incarnation"] += 1
             self._compare(sub, [ms], app, ["C07"], ["C08"], "claim")
             sub.ev.notes.setdefault("_ok", []).append(("claim", app, name, mid, side))
-        elif not ok_np and not ok_mb:
+        elif ok_np is False and ok_mb is False:
             self.probes["crowded_refusals"] += 1
             if told is not None:
                 self.v("C05", "third-side-refused", ev,
@@ -486,7 +506,17 @@ class CommandMixin(object):
         errored = [f for f in rest if f.get("type") == "error"]
         msgs = [f for f in rest if f.get("type") == "message"]
         self._no_others("C01", sub, "open")
-        if self._admit_ok(adm, side):
+        ev.notes.setdefault("_att", []).append((k, None, side))
+        verdict = self._admission(rec, side)
+        if verdict is None:
+            self.probes["zone:admission-order"] += 1
+            cm.uncertain = True
+            if errored:
+                cm.open_refused = True
+            else:
+                ev.notes.setdefault("_ok", []).append(("open", app, mid, side, cm.id))
+            return
+        if verdict:
             if errored:
                 if errored[0].get("error") == "crowded":
                     self.v("C05", "admitted-side-keeps-access", ev,
@@ -622,7 +652,14 @@ class CommandMixin(object):
             if out == "foreign":
                 self._f7(sub, app, mid)
                 return
-            if not self._admit_ok(adm, side):
+            ev.notes.setdefault("_att", []).append((k, None, side))
+            verdict = self._admission(rec, side)
+            if verdict is None:
+                self.probes["zone:admission-order"] += 1
+                cm.uncertain = True
+                self._apply_observed(cm, sub, rest)
+                return
+            if not verdict:
                 self.probes["crowded_refusals"] += 1
                 if not errored:
                     self.v("C05", "third-side-refused", ev,
@@ -700,6 +737,8 @@ class CommandMixin(object):
         """monitor updates that need the (possibly new) incarnation records"""
         if not hasattr(self, "sub_epoch"):
             self.sub_epoch = {}
+        for (k_mb, k_np, side_) in sub.ev.notes.pop("_att", []):
+            self._attempt(k_mb, k_np, side_)
         for rec in sub.ev.notes.pop("_ok", []):
             if rec[0] == "claim":
                 _, app, name, mid, side = rec
@@ -729,6 +768,11 @@ class CommandMixin(object):
                 self._touch(k, now, True)
             elif rec[0] == "close":
                 _, app, mid, side, cid = rec
+                # a close by a side that had not opened performs an open first:
+                # that side is admitted like any other opener
+                mbr = self.mb_inc.get((app, mid))
+                if mbr is not None and side not in mbr["admitted"]:
+                    mbr["admitted"].append(side)
                 self._touch((app, mid), now, False)
         if kind == "allocate" and cm.allocated and rest and rest[0].get("type") == "allocated":
             name = rest[0].get("nameplate")
